@@ -817,6 +817,10 @@ func getVerificationsByKeyID(didID, baseURI string, vm []VerificationMethod, rel
 			continue
 		}
 
+		if _, isString := keyID.(string); !isString {
+			return nil, fmt.Errorf("key id %v of a verification relationship is not a string", keyID)
+		}
+
 		for _, v := range vm {
 			if v.ID == keyID || v.ID == resolveRelativeDIDURL(didID, baseURI, keyID) {
 				vms = append(vms, Verification{VerificationMethod: v, Relationship: relationship})
